@@ -107,6 +107,7 @@ type Run struct {
 	mu            sync.Mutex
 	armed         map[string]string // target -> armed fault kind
 	fire          *Action           // armed fault whose moment has come (set by the device's goroutine)
+	fireCtl       string            // controller whose request triggered it
 	FaultInSync   bool
 	// statistics
 	FaultsBetweenTx           bool
@@ -225,7 +226,7 @@ func (r *Run) perform(i int, a Action) error {
 		w.Devices[a.Target].RestartEmpty()
 		w.X.Logf("  device %s restarted empty", a.Target)
 		return w.LinkUp(a.Target)
-	case "flapinsync", "restartinsync":
+	case "flapinsync", "restartinsync", "flapinapply", "restartinapply":
 		// armed: carried out at the moment the device next receives a re-synchronisation request
 		r.mu.Lock()
 		if r.armed == nil {
@@ -293,14 +294,20 @@ func (r *Run) noteSent(target string, req fakes.DeviceReq) {
 	}
 	r.Sent = append(r.Sent, s)
 	r.X.Logf("    -> device %s: %s [by %s %s]", target, fakes.DescribeReq(req), s.Ctl, s.ID)
-	if s.Ctl == "configuration" {
-		r.mu.Lock()
-		if k := r.armed[target]; k != "" && r.fire == nil {
+	r.mu.Lock()
+	if k := r.armed[target]; k != "" && r.fire == nil {
+		switch {
+		case strings.HasSuffix(k, "insync") && s.Ctl == "configuration":
 			delete(r.armed, target)
 			r.fire = &Action{Kind: strings.TrimSuffix(k, "insync"), Target: target}
+			r.fireCtl = "configuration"
+		case strings.HasSuffix(k, "inapply") && s.Ctl == "proposal" && req.Code == codes.OK:
+			delete(r.armed, target)
+			r.fire = &Action{Kind: strings.TrimSuffix(k, "inapply"), Target: target}
+			r.fireCtl = "proposal"
 		}
-		r.mu.Unlock()
 	}
+	r.mu.Unlock()
 }
 
 // monitor runs after every scheduler step.
@@ -309,7 +316,7 @@ func (r *Run) noteSent(target string, req fakes.DeviceReq) {
 // the device restarts and mastership is settled again, and only then goes on.
 func (r *Run) fireArmed() {
 	r.mu.Lock()
-	f := r.fire
+	f, ctl := r.fire, r.fireCtl
 	r.fire = nil
 	r.mu.Unlock()
 	if f == nil {
@@ -319,10 +326,10 @@ func (r *Run) fireArmed() {
 	var ext []External
 	switch f.Kind {
 	case "flap":
-		ext = []External{{Name: "linkdown(" + f.Target + ") [armed: during re-synchronisation]", Fn: func() error { w.LinkDown(f.Target); return nil }},
+		ext = []External{{Name: "linkdown(" + f.Target + ") [armed: while the request of the " + ctl + " controller is being answered]", Fn: func() error { w.LinkDown(f.Target); return nil }},
 			{Name: "linkup(" + f.Target + ") [armed]", Fn: func() error { return w.LinkUp(f.Target) }}}
 	case "restart":
-		ext = []External{{Name: "restart(" + f.Target + ") [armed: during re-synchronisation]", Fn: func() error {
+		ext = []External{{Name: "restart(" + f.Target + ") [armed: while the request of the " + ctl + " controller is being answered]", Fn: func() error {
 			w.LinkDown(f.Target)
 			w.Devices[f.Target].RestartEmpty()
 			w.X.Logf("  device %s restarted empty", f.Target)
@@ -330,11 +337,15 @@ func (r *Run) fireArmed() {
 		}}}
 	}
 	w.S.Externals = append(ext, w.S.Externals...)
-	if w.S.DeferInflight("configuration", len(ext)) {
-		r.X.Class("fault during re-synchronisation (the re-synchronising step parked across the master change)")
+	what := "re-synchronisation"
+	if ctl == "proposal" {
+		what = "apply"
+	}
+	if w.S.DeferInflight(ctl, len(ext)) {
+		r.X.Class("fault during " + what + " (the step that sent the request stays parked across the master change)")
 		r.FaultInSync = true
 	} else {
-		r.X.Class("fault right after re-synchronisation")
+		r.X.Class("fault right after " + what)
 	}
 }
 
